@@ -296,3 +296,64 @@ func H_C09_Block() {
 	cnt, n := VLen(data[80:])
 	zzverif.Assert("C09.block.offsets", n > 0 && cnt == bl.TxCount && bl.TxOffset == 80+n)
 }
+
+// C09: the hashing path of block decoding (BuildTxList), which hands packs of >= 4096 bytes of transactions to
+// workers: a block of a 4.1 kB coinbase followed by a segwit and a plain transaction (so that the second pack does
+// not start with the coinbase), arbitrary lock-times / witness byte / output value: every transaction gets
+// txid = sha256d(stripped serialisation), the segwit one wtxid = sha256d(raw), only the coinbase outputs are
+// marked as coinbase, sizes and the block weight follow BIP141.
+func H_C09_BlockPacks() {
+	zzverif.Bound("block", "3 transactions: coinbase with a 4040-byte script, one segwit and one plain transaction of 1 input / 1 output; symbolic: lock-times, one witness byte, one output value")
+	le32 := func(name string) []byte { return zzverif.Bytes(name, 4) }
+	raw := make([]byte, 80)
+	raw[0] = 4
+	raw = append(raw, 3)
+	// coinbase
+	cb := []byte{1, 0, 0, 0, 1}
+	cb = append(cb, make([]byte, 32)...)
+	cb = append(cb, 0xff, 0xff, 0xff, 0xff, 0xfd, 0xc8, 0x0f) // 4040-byte script
+	cb = append(cb, make([]byte, 4040)...)
+	cb = append(cb, 0xff, 0xff, 0xff, 0xff, 1)
+	cb = append(cb, zzverif.Bytes("cb.value", 8)...)
+	cb = append(cb, 1, 0x51)
+	cb = append(cb, le32("cb.locktime")...)
+	// segwit transaction
+	sw := []byte{2, 0, 0, 0, 0, 1, 1}
+	sw = append(sw, bytes.Repeat([]byte{0xA1}, 32)...)
+	sw = append(sw, 0, 0, 0, 0, 0, 0xfe, 0xff, 0xff, 0xff, 1)
+	sw = append(sw, 1, 0, 0, 0, 0, 0, 0, 0, 1, 0x51)
+	sw = append(sw, 1, 1, zzverif.U8("witness-byte"))
+	sw = append(sw, le32("sw.locktime")...)
+	// plain transaction
+	pt := []byte{1, 0, 0, 0, 1}
+	pt = append(pt, bytes.Repeat([]byte{0xB2}, 32)...)
+	pt = append(pt, 1, 0, 0, 0, 0, 0xff, 0xff, 0xff, 0xff, 1)
+	pt = append(pt, 2, 0, 0, 0, 0, 0, 0, 0, 1, 0x52)
+	pt = append(pt, le32("pt.locktime")...)
+	raw = append(append(append(raw, cb...), sw...), pt...)
+	bl, er := NewBlock(raw)
+	zzverif.Assert("C09.packs.newblock", er == nil && bl != nil)
+	er = bl.BuildTxList()
+	zzverif.Assert("C09.packs.decoded", er == nil && len(bl.Txs) == 3)
+	parts := [][]byte{cb, sw, pt}
+	weight := uint(4 * (80 + 1))
+	for i, tx := range bl.Txs {
+		zzverif.Assert("C09.packs.raw", bytes.Equal(tx.Raw, parts[i]))
+		stripped := tx.Serialize()
+		txid := Sha2Sum(stripped)
+		zzverif.Assert("C09.packs.txid", tx.Hash.Hash == txid)
+		if i == 1 {
+			zzverif.Assert("C09.packs.wtxid", tx.SegWit != nil && tx.WTxID().Hash == Sha2Sum(tx.Raw))
+		} else if i == 2 {
+			zzverif.Assert("C09.packs.wtxid-plain", tx.WTxID().Hash == txid)
+		}
+		for _, o := range tx.TxOut {
+			zzverif.Assert("C09.packs.coinbase-mark", o.WasCoinbase == (i == 0))
+		}
+		zzverif.Assert("C09.packs.size", int(tx.Size) == len(parts[i]) && int(tx.NoWitSize) == len(stripped))
+		weight += uint(3*len(stripped) + len(parts[i]))
+	}
+	zzverif.Assert("C09.packs.weight", bl.BlockWeight == weight)
+	zzverif.Assert("C09.packs.inputs", bl.TotalInputs == 3)
+	zzverif.Reach("decoded")
+}
